@@ -1,4 +1,4 @@
-"""C02 -- occurrence finding is exact (structural clauses R02.1-R02.18)."""
+"""C02 -- occurrence finding is exact (structural clauses R02.1-R02.21)."""
 from __future__ import annotations
 
 import ast
@@ -33,6 +33,7 @@ EXPLANATION = (
     "the right binding is otherwise not decided."
     ' R02.15 (=R01.11): `__init__` is the call target only of a class.'
 )
+EXPLANATION += " R02.19: identifier characters are the interpreter's.  R02.20 (=R15.17): walrus targets in comprehensions.  R02.21: header expressions of def / class are evaluated in the parent scope."
 EXPLANATION += ' R02.18: a `col_offset`/`end_col_offset` of an AST node (UTF-8 bytes) reaches a character offset only through codeanalyze.column_to_offset; it is otherwise only compared, or is the start column of a node tested to be a statement.'
 ASSUMPTIONS = ["re alternation is ordered (leftmost position, first alternative wins)",
                "the name searched for is a plain identifier (symbolic NAME in the folded pattern)"]
@@ -114,6 +115,10 @@ def check(ctx, res) -> None:
     byte_column_rule(ctx, res, "R02.18", ("rope.refactor.occurrences",))
     from .common import identifier_char_rule
 
+    from .c15 import walrus_in_comprehension_rule
+
+    walrus_in_comprehension_rule(ctx, res, "R02.20")
+    header_expression_scope_rule(ctx, res, "R02.21")
     identifier_char_rule(ctx, res, "R02.19", ("rope.refactor.occurrences", "rope.base.worder", "rope.base.evaluate"), occurrences=True)
 
 
@@ -573,3 +578,40 @@ def _same_pyname_strength_rule(ctx, res, rule: str = "R02.14") -> None:
                 f"same_pyname decides on {sorted(have) or 'nothing'} only (missing {sorted(missing)}): two different bindings that share a definition "
                 "location (an imported module and a variable on its first line; a function and its same-named parameter) are merged, so "
                 "find-occurrences reports foreign tokens and the answer depends on the query point", function=f.qualname)
+
+
+def header_expression_scope_rule(ctx, res, rule: str) -> None:
+    """R02.21 (= R01.16): the interpreter evaluates the decorators, parameter defaults (`defaults`, `kw_defaults`), annotations,
+    return annotation, and the bases / keywords of a class in the scope that CONTAINS the def or class statement; only the
+    body belongs to the new scope.  rope finds "the scope holding an offset" by the extent of the whole statement.  The name
+    finder therefore moves to the parent scope before it evaluates a name that stands in one of those expressions: an
+    assignment `<scope> = <scope>.parent` on the way to the final evaluation, under a test that -- itself or in a method of
+    the class -- reads each of those fields of the statement's node."""
+    idx = ctx.idx
+    f = idx.need_func("rope.base.evaluate.ScopeNameFinder.get_primary_and_pyname_at")
+    cfg = CFG(f.node)
+    need = ["decorator_list", "defaults", "kw_defaults", "annotation", "returns", "bases", "keywords"]
+    best = None
+    for nd in cfg.nodes:
+        st = nd.ast
+        if nd.kind == "stmt" and isinstance(st, ast.Assign) and len(st.targets) == 1 and isinstance(st.targets[0], ast.Name) \
+                and isinstance(st.value, ast.Attribute) and st.value.attr == "parent" and isinstance(st.value.value, ast.Name) and st.value.value.id == st.targets[0].id:
+            seen = set()
+            for t, pol in cfg.guards(nd.id):
+                texts = [t]
+                for c in ast.walk(t):
+                    if isinstance(c, ast.Call) and is_self_attr(c.func) and f.cls is not None:
+                        m = idx.find_method(f.cls.qualname, c.func.attr)
+                        if m is not None:
+                            texts.append(m.node)
+                seen |= {x.attr for tt in texts for x in ast.walk(tt) if isinstance(x, ast.Attribute)}
+            got = [a for a in need if a in seen]
+            if best is None or len(got) > len(best[1]):
+                best = (nd, got)
+    missing = need if best is None else [a for a in need if a not in best[1]]
+    ok = not missing
+    res.add(rule, "get_primary_and_pyname_at|header-expressions-evaluated-in-the-parent-scope", ok, f"{f.unit.rel}:{(best[0] if best else cfg.entry).lineno if best else f.node.lineno}",
+            "a name in a decorator, default, annotation or base is evaluated in the scope that contains the statement" if ok else
+            f"a name that stands in {missing} of a def / class statement is evaluated in the scope of that function or class itself: in `v = 1; def f(v=v): return v` "
+            "the default resolves to the parameter, so Rename of the module's `v` leaves `v=v` (NameError when the module is imported) and the occurrences of "
+            "the parameter include the default", function=f.qualname)
